@@ -26,6 +26,7 @@ type Opts struct {
 	ArrayParams bool
 	ScalarParams bool // main parameters are integer scalars only (no bool)
 	Param0       *Type  // fixed type of main's first parameter
+	StructParams bool   // main parameters may be of the program's struct type
 	PoolTypes    []Type // types added to the program's type pool
 }
 
@@ -223,6 +224,21 @@ func (g *gctx) dynSource(T Type) *Expr {
 		if nv.v.RO && nv.v.T.K == KArray && nv.v.T.E.IsInt() {
 			arrs = append(arrs, nv)
 		}
+	}
+	// Fields of read-only (parameter) structs are dynamic as well.
+	var fields []*Expr
+	for _, nv := range vis {
+		if nv.v.RO && nv.v.T.K == KStruct {
+			for _, f := range g.prog.Struct(nv.v.T.S).Fields {
+				if f.T.IsInt() {
+					fields = append(fields, &Expr{Op: EField, T: f.T, Name: f.Name,
+						A: []*Expr{{Op: EVar, T: nv.v.T, Name: nv.name}}})
+				}
+			}
+		}
+	}
+	if len(fields) > 0 && (len(exact)+len(other)+len(arrs) == 0 || g.chance(25, "dynfield")) {
+		return g.castTo(fields[g.intn(0, len(fields)-1, "dynfieldidx")], T)
 	}
 	if len(exact) > 0 && (len(other) == 0 || g.chance(80, "dynexact")) {
 		nv := exact[g.intn(0, len(exact)-1, "dynvar")]
@@ -1198,6 +1214,9 @@ func Draw(t *rapid.T, o Opts) *Prog {
 		}
 		if i == 0 && o.Param0 != nil {
 			T = *o.Param0
+		}
+		if o.StructParams && len(g.prog.Structs) > 0 && g.chance(40, "structparam") {
+			T = Type{K: KStruct, S: g.prog.Structs[0].Name}
 		}
 		main.Params = append(main.Params, Param{Name: fmt.Sprintf("a%d", i), T: T})
 	}
